@@ -155,6 +155,20 @@ CLAIMS['C20'] = dict(
          'and extension, ring totality + first-match partition vs IHI 0038 Table 4 + consumption + ULEB operand loop. Not decided: '
          'mnemonic text, attribute values. Trusted: IHI 0038/0045 rows in props/C20.py.')
 
+CLAIMS['C19'] = dict(
+    technique='exception-escape analysis over the resolved constructor call graph (raise types vs the exception class table, assert '
+              'discharge, nullable-result dereference, membership-guarded lookups, try/handler shape of struct_parse) + loop progress '
+              'analysis with integer lower bounds over the enumeration call graph (cursor advance, parse-at-cursor, sequential read '
+              'with short-read exit, stride/absent-table decision)',
+    level=LEVEL,
+    note='Decides (1) on every function reachable from ELFFile.__init__: explicit raises are ELFError subclasses, no undischarged assert, '
+         'construct parsing only through struct_parse whose handlers convert ConstructError and an unseekable position, no dereference or '
+         'hand-off of a possibly-None header, variable-key lookups membership-guarded; (2) on every function reachable from the enumeration '
+         'battery: each while/count() loop parses at a cursor that grows by a proven positive amount (unsigned fields, sizeof >= 1, '
+         'roundup(x,k) >= x) or reads a positive fixed size sequentially and leaves on a short read; header table strides >= struct size '
+         'or count 0 when the table is absent. Not decided: wall time, allocation (stream.read(n) of a file-controlled n depends on the '
+         'stream type), implicit exceptions of arithmetic on parsed integers, quadratic products of bounded loops.')
+
 NOT_YET = 'rules for this property are not built yet in this session (claimed once its check exists)'
 NOT_APPLICABLE = {
     'C18': 'output equality with GNU readelf: the oracle binary is emptied in this sandbox, formatted text is a runtime '
